@@ -76,7 +76,48 @@ func other(r *hx.Rand, not int) int {
 	return x
 }
 
+// genFee: the governed SHA256 price is used, updated (setGlobalParam + createSnapshot), and used again with gas limits on both
+// sides of what the old and the new price need; the last block is the one the fresh-process leg replays.
+func genFee(r *hx.Rand) string {
+	fee := 10
+	var ops []string
+	use := func() {
+		for t := 0; t < 1+r.Intn(3); t++ {
+			a, sh := genSigner(r, 100)
+			cnt := 1 + r.Intn(20)
+			need := 1 + cnt*fee
+			gl := need
+			switch r.Intn(4) {
+			case 0:
+				gl = need - 1
+			case 1:
+				gl = 1 + cnt*10 // what the default price needs
+			case 2:
+				gl = need + r.Intn(50)
+			}
+			ops = append(ops, fmt.Sprintf("sha:%d.%s:%d:%d:-", a, sh, cnt, gl))
+		}
+	}
+	use()
+	ops = append(ops, "b")
+	for k := 0; k < 1+r.Intn(2); k++ {
+		fee = []int{1, 2, 20, 50, 1000, 10}[r.Intn(6)]
+		ops = append(ops, fmt.Sprintf("fee:%d", fee))
+		if r.Chance(50) {
+			a, sh := genSigner(r, 100)
+			ops = append(ops, fmt.Sprintf("ont:%d.%s:%d:1:0:-", a, sh, other(r, a)))
+		}
+		ops = append(ops, "b")
+		use()
+		ops = append(ops, "b")
+	}
+	return "X " + strings.Join(ops, ";")
+}
+
 func gen(r *hx.Rand, tier string, i int) string {
+	if r.Chance(15) {
+		return genFee(r)
+	}
 	// a third of the lines is all-canonical (the nodes must agree on them), the rest mixes in every encoding
 	canonBias := 55
 	if r.Chance(33) {
@@ -120,13 +161,21 @@ func gen(r *hx.Rand, tier string, i int) string {
 				if r.Chance(30) {
 					tg = r.Intn(nAcct)
 				}
-				ops = append(ops, fmt.Sprintf("cwt:%d.%s:%d:%d:%s", a, sh, tg, gp, payer))
+				if r.Chance(12) {
+					ops = append(ops, fmt.Sprintf("cwt:%d.%s:z:%d:%s", a, sh, gp, payer))
+				} else {
+					ops = append(ops, fmt.Sprintf("cwt:%d.%s:%d:%d:%s", a, sh, tg, gp, payer))
+				}
 			case x < 72:
 				tg := a
 				if r.Chance(30) {
 					tg = r.Intn(nAcct)
 				}
-				ops = append(ops, fmt.Sprintf("cwn:%d.%s:%d:%d:%s", a, sh, tg, gp, payer))
+				if r.Chance(12) {
+					ops = append(ops, fmt.Sprintf("cwn:%d.%s:z:%d:%s", a, sh, gp, payer))
+				} else {
+					ops = append(ops, fmt.Sprintf("cwn:%d.%s:%d:%d:%s", a, sh, tg, gp, payer))
+				}
 			case x < 80:
 				ops = append(ops, fmt.Sprintf("dep:%d.%s:%d", a, sh, r.Intn(nCode)))
 			case x < 90:
@@ -143,6 +192,9 @@ func gen(r *hx.Rand, tier string, i int) string {
 					}
 				}
 				ops = append(ops, fmt.Sprintf("app:%d.%s:%d:%d:%s", a, sh, k, gp, payer))
+			case x < 94:
+				cnt := 1 + r.Intn(10)
+				ops = append(ops, fmt.Sprintf("sha:%d.%s:%d:%d:%s", a, sh, cnt, 1+cnt*10-r.Intn(2), payer))
 			default:
 				g := 0
 				if r.Chance(50) {
@@ -157,6 +209,12 @@ func gen(r *hx.Rand, tier string, i int) string {
 }
 
 var corpus = []string{
+	// nobody witnesses the all-zero address
+	"X cwn:0.c:z:0:-;cwt:1.c:z:0:-;cwn:4.c.3:z:2500:2.c;b",
+	// the governed SHA256 price (10) is used, raised to 20 by the operator, and used again: 5 x SHA256 with gas limit 60 succeeds
+	// before and fails after; the last block is also executed by a freshly started process
+	"X sha:0.c:5:60:-;b;fee:20;b;sha:0.c:5:60:-;sha:1.c:5:101:-;b",
+	"X fee:1;b;sha:2.c:100:101:-;sha:2.c:100:100:-;b;fee:10;sha:2.c:100:101:-;b;sha:2.c:100:1001:-;sha:4.c.3:100:1000:0.c;b",
 	// multi-signature sets carrying more signatures than m: non-payer (a single key pays) and payer, m<sn<n and sn=n, transfers
 	// from the multi-signature account and CheckWitness on it
 	"X ont:4.c.3:1:5:0:0.c;b",
